@@ -72,8 +72,40 @@ func NewCtx(tier string, shard, nshards int, seed int64, budget time.Duration) *
 	c := &Ctx{Tier: tier, Shard: shard, NShards: nshards, Seed: seed, R: &Result{Exhaustive: true, Extra: map[string]int64{}},
 		states: map[uint64]struct{}{}, outcomes: map[uint64]struct{}{}, nontriv: map[uint64]struct{}{}, sampleCls: map[string]bool{}}
 	c.Deadline = time.Now().Add(budget)
-	c.Scratch = filepath.Join(ScratchBase(), fmt.Sprintf("w%d", os.Getpid()))
+	// pid plus start stamp: pids are reused (pid_max 32768) and a killed worker leaves its directory behind; a later
+	// worker with the same pid must never open a database on those stale files
+	c.Scratch = filepath.Join(ScratchBase(), fmt.Sprintf("w%d-%d", os.Getpid(), procStamp))
 	return c
+}
+
+var procStamp = time.Now().UnixNano()
+
+// purgeStaleScratch removes data directories left behind by workers that are no longer running, and temporary files
+// (flush temp files of crashed database instances, sort spill files) older than three hours.
+func purgeStaleScratch() {
+	base := ScratchBase()
+	ents, _ := os.ReadDir(base)
+	for _, e := range ents {
+		name := e.Name()
+		if !strings.HasPrefix(name, "w") || !e.IsDir() {
+			continue
+		}
+		pidStr := strings.SplitN(name[1:], "-", 2)[0]
+		if _, err := strconv.Atoi(pidStr); err != nil {
+			continue
+		}
+		if comm, err := os.ReadFile("/proc/" + pidStr + "/comm"); err == nil && strings.HasPrefix(string(comm), "verif") {
+			continue // a live worker (possibly of a concurrent check)
+		}
+		os.RemoveAll(filepath.Join(base, name))
+	}
+	tmp := filepath.Join(base, "tmp")
+	ents, _ = os.ReadDir(tmp)
+	for _, e := range ents {
+		if info, err := e.Info(); err == nil && time.Since(info.ModTime()) > 3*time.Hour && !strings.HasPrefix(e.Name(), "go-build") {
+			os.RemoveAll(filepath.Join(tmp, e.Name()))
+		}
+	}
 }
 
 // ScratchBase is where data directories are created ($VERIF_SCRATCH, tmpfs when
@@ -242,7 +274,7 @@ type Prop struct {
 
 var registry = map[string]*Prop{}
 
-func Register(p *Prop) { registry[p.ID] = p }
+func Register(p *Prop)    { registry[p.ID] = p }
 func Get(id string) *Prop { return registry[id] }
 func IDs() []string {
 	var ids []string
@@ -486,6 +518,7 @@ func CheckMain(self, id, tier string) int {
 	}
 	logDir := filepath.Join(Root, ".scratch", "logs")
 	os.MkdirAll(logDir, 0755)
+	purgeStaleScratch()
 	merged := &Result{Exhaustive: true, Extra: map[string]int64{}}
 	st, oc, nt := map[uint64]struct{}{}, map[uint64]struct{}{}, map[uint64]struct{}{}
 	preViolation := ""
@@ -686,9 +719,14 @@ func CheckMain(self, id, tier string) int {
 		"wall_s":      time.Since(start).Seconds(),
 		"violations":  realViolations,
 	}
-	os.MkdirAll(filepath.Join(Root, "evidence"), 0755)
+	evDir := filepath.Join(Root, "evidence")
+	if d := os.Getenv("VERIF_EVIDENCE_DIR"); d != "" {
+		// runs against deliberately broken trees (seeded changes) must not touch the committed evidence
+		evDir = d
+	}
+	os.MkdirAll(evDir, 0755)
 	b, _ := json.MarshalIndent(ev, "", " ")
-	os.WriteFile(filepath.Join(Root, "evidence", id+".json"), b, 0644)
+	os.WriteFile(filepath.Join(evDir, id+".json"), b, 0644)
 	fmt.Printf("%s %s: evaluations=%d nontrivial=%d states=%d transitions=%d outcomes=%d exhaustive=%v violations=%d known=%d wall=%.1fs\n",
 		id, tier, merged.Evaluations, nontrivial, len(st), merged.Transitions, len(oc), merged.Exhaustive, realViolations, len(knownSeen), time.Since(start).Seconds())
 	if len(oc) == 1 && merged.Evaluations > 10 {
